@@ -4,6 +4,7 @@ import (
 	"bytes"
 	"fmt"
 	"go/token"
+	"go/types"
 	"strings"
 
 	"golang.org/x/tools/go/ssa"
@@ -112,22 +113,70 @@ var ruleZipMarkers = &core.Rule{ID: "R19.1", Min: 8,
 		} else {
 			s.Bad("apk precedes jar", "-", "apk node not found")
 		}
-		// OOXML first-entry list
-		var lists [][][]byte
-		for _, b := range w.Blocks {
-			for _, in := range b.Instrs {
-				if sl, ok := in.(*ssa.Slice); ok {
-					if l, ok := tree.ConstByteSlices(sl); ok && len(l) > 0 {
-						lists = append(lists, l)
+		// OOXML first-entry list: a constant [][]byte in the walker, or a package-level table it (or a predicate helper it calls) reads
+		hasCT := false
+		scan := func(f *ssa.Function) [][][]byte {
+			var lists [][][]byte
+			for _, b := range f.Blocks {
+				for _, in := range b.Instrs {
+					if sl, ok := in.(*ssa.Slice); ok {
+						if l, ok := tree.ConstByteSlices(sl); ok && len(l) > 0 {
+							lists = append(lists, l)
+						}
 					}
 				}
 			}
+			return lists
 		}
-		hasCT := false
-		for _, l := range lists {
-			for _, e := range l {
-				if string(e) == "[Content_Types].xml" {
-					hasCT = true
+		contains := func(lists [][][]byte) bool {
+			for _, l := range lists {
+				for _, e := range l {
+					if string(e) == "[Content_Types].xml" {
+						return true
+					}
+				}
+			}
+			return false
+		}
+		if contains(scan(w)) {
+			hasCT = true
+		}
+		if !hasCT {
+			// package-level table: stored in init, loaded by the walker or a helper it calls
+			loaded := map[*ssa.Global]bool{}
+			var visit func(f *ssa.Function, d int)
+			visit = func(f *ssa.Function, d int) {
+				for _, b := range f.Blocks {
+					for _, in := range b.Instrs {
+						if g, ok := core.LoadOfGlobal(valueOf(in)); ok {
+							loaded[g] = true
+						}
+					}
+				}
+				if d < 2 {
+					for _, ci := range core.Calls(f) {
+						if g := ci.Common().StaticCallee(); g != nil && core.InMod(g) && g.Blocks != nil {
+							visit(g, d+1)
+						}
+					}
+				}
+			}
+			visit(w, 0)
+			if init := w.Pkg.Func("init"); init != nil {
+				for _, b := range init.Blocks {
+					for _, in := range b.Instrs {
+						st, ok := in.(*ssa.Store)
+						if !ok {
+							continue
+						}
+						g, ok := st.Addr.(*ssa.Global)
+						if !ok || !loaded[g] {
+							continue
+						}
+						if l, ok := tree.ConstByteSlices(st.Val); ok && contains([][][]byte{l}) {
+							hasCT = true
+						}
+					}
 				}
 			}
 		}
@@ -359,6 +408,20 @@ var ruleZipWalk = &core.Rule{ID: "R19.5", Min: 5,
 				for _, a := range adv {
 					if ci == ssa.CallInstruction(a) {
 						okStep = true
+					}
+				}
+				// a predicate helper (bool result, no access to the cursor) cannot move the walk
+				if g != nil && core.InMod(g) && g.Signature.Results().Len() == 1 {
+					if bt, ok := g.Signature.Results().At(0).Type().Underlying().(*types.Basic); ok && bt.Kind() == types.Bool {
+						cursorArg := false
+						for _, a := range cc.Args {
+							if _, isAlloc := a.(*ssa.Alloc); isAlloc {
+								cursorArg = true
+							}
+						}
+						if !cursorArg {
+							okStep = true
+						}
 					}
 				}
 				if !okStep {
